@@ -1,7 +1,7 @@
 (* C19 at model level: a failing operation of the locking module leaves the state exactly as it was;
    where the model can panic at all. *)
 From stdpp Require Import gmap.
-From Goat Require Import Base.Prelude Model.Locking.
+From Goat Require Import Base.Prelude Model.Locking Model.Bridge Proofs.BridgeSeq.
 
 Theorem lk_failure_is_identity s o :
   fst (fst (snd (lk_step s o))) <> 0%N -> fst (lk_step s o) = s.
@@ -17,3 +17,82 @@ Qed.
 (* the hand-over of queued transactions and account creation never fail *)
 Theorem lk_dequeue_total s : fst (fst (snd (lk_step s KDequeue))) = 0%N.
 Proof. cbn [lk_step]. destruct (dequeue_txs s); reflexivity. Qed.
+
+(* History level: along any run, the operations that failed can be erased - the run reaches the very
+   same state from the successful operations alone, each of which succeeds again when replayed. *)
+Fixpoint lk_succ (s : lstate) (ops : list lkop) : list lkop :=
+  match ops with
+  | [] => []
+  | o :: r => if N.eqb (fst (fst (snd (lk_step s o)))) 0 then o :: lk_succ (fst (lk_step s o)) r else lk_succ s r
+  end.
+
+Fixpoint lk_all_ok (s : lstate) (ops : list lkop) : bool :=
+  match ops with
+  | [] => true
+  | o :: r => N.eqb (fst (fst (snd (lk_step s o)))) 0 && lk_all_ok (fst (lk_step s o)) r
+  end.
+
+Theorem lk_failed_ops_erasable ops : forall s,
+  lk_run s ops = lk_run s (lk_succ s ops) /\ lk_all_ok s (lk_succ s ops) = true.
+Proof.
+  induction ops as [|o r IH]; intros s; [split; reflexivity|].
+  cbn [lk_succ]. destruct (N.eqb_spec (fst (fst (snd (lk_step s o)))) 0) as [E|E].
+  - destruct (IH (fst (lk_step s o))) as [IH1 IH2]. split.
+    + unfold lk_run in *. cbn [fold_left]. exact IH1.
+    + cbn [lk_all_ok]. rewrite IH2. apply N.eqb_eq in E. rewrite E. reflexivity.
+  - destruct (IH s) as [IH1 IH2]. split; [|exact IH2].
+    unfold lk_run in *. cbn [fold_left]. rewrite (lk_failure_is_identity s o E). exact IH1.
+Qed.
+
+(* the outputs (validator updates, handed-over transactions) of a failed operation are empty *)
+Theorem lk_failure_emits_nothing s o :
+  fst (fst (snd (lk_step s o))) <> 0%N -> snd (fst (snd (lk_step s o))) = [] /\ snd (snd (lk_step s o)) = [].
+Proof.
+  destruct o; cbn [lk_step]; unfold deliver.
+  - destruct (begin_block _ _ _ _ _ _) as [x| |]; cbn; auto.
+  - destruct (process_requests _ _ _ _) as [x| |]; cbn; auto.
+  - destruct (end_block s) as [[x u]| |]; cbn; auto; congruence.
+  - destruct (dequeue_txs s) as [x t]; cbn; congruence.
+  - cbn. congruence.
+Qed.
+
+(* The same for the bridge / relayer model. *)
+Section BridgeRobust.
+Variable H : bytes -> bytes.
+Variable chain_id : bytes.
+
+Fixpoint bk_succ (s : bstate) (ops : list bop) : list bop :=
+  match ops with
+  | [] => []
+  | o :: r => if N.eqb (fst (snd (bk_step H chain_id s o))) 0
+              then o :: bk_succ (fst (bk_step H chain_id s o)) r else bk_succ s r
+  end.
+
+Fixpoint bk_all_ok (s : bstate) (ops : list bop) : bool :=
+  match ops with
+  | [] => true
+  | o :: r => N.eqb (fst (snd (bk_step H chain_id s o))) 0 && bk_all_ok (fst (bk_step H chain_id s o)) r
+  end.
+
+Theorem bk_failed_ops_erasable ops : forall s,
+  bk_run H chain_id s ops = bk_run H chain_id s (bk_succ s ops) /\ bk_all_ok s (bk_succ s ops) = true.
+Proof.
+  induction ops as [|o r IH]; intros s; [split; reflexivity|].
+  cbn [bk_succ]. destruct (N.eqb_spec (fst (snd (bk_step H chain_id s o))) 0) as [E|E].
+  - destruct (IH (fst (bk_step H chain_id s o))) as [IH1 IH2]. split.
+    + unfold bk_run in *. cbn [fold_left]. exact IH1.
+    + cbn [bk_all_ok]. rewrite IH2. apply N.eqb_eq in E. rewrite E. reflexivity.
+  - destruct (IH s) as [IH1 IH2]. split; [|exact IH2].
+    unfold bk_run in *. cbn [fold_left]. rewrite (failure_is_identity H chain_id s o E). exact IH1.
+Qed.
+
+(* a failed operation hands nothing over to the execution layer *)
+Theorem bk_failure_emits_nothing s o :
+  fst (snd (bk_step H chain_id s o)) <> 0%N -> snd (snd (bk_step H chain_id s o)) = [].
+Proof.
+  destruct o; cbn [bk_step]; unfold deliver_b;
+    try (match goal with |- context [match ?r with Ok _ => _ | Err => _ | Panic => _ end] => destruct r as [x| |] end; cbn; congruence).
+  - destruct (dequeue_btc s) as [[s' t]| |]; cbn; congruence.
+  - cbn. congruence.
+Qed.
+End BridgeRobust.
